@@ -21,7 +21,7 @@ def pregen(check):
 
 CFG = {
     "id": "C15",
-    "lean_modules": ["GeomV.C15.Proofs", "GeomV.C15.ProofsBlocks", "GeomV.C15.ProofsFloat", "GeomV.C15.Ties"],
+    "lean_modules": ["GeomV.C15.Proofs", "GeomV.C15.ProofsBlocks", "GeomV.C15.ProofsFloat", "GeomV.C15.ProofsPath", "GeomV.C15.Ties"],
     "pregen": pregen,
     "exe": "geomv_c15",
     "go_cmd": "c15",
@@ -35,6 +35,7 @@ CFG = {
         "C15_tie_similar", "C15_tie_pointSimilar", "C15_tie_pointsSimilar", "C15_tie_ringSimilarFrom", "C15_tie_ringSimilar",
         "C15_tie_Point", "C15_tie_MultiPoint", "C15_tie_LineString", "C15_tie_Bounds",
         "C15_model_eq_spec_blocks", "C15_greedy_iff_perfect_blocks", "C15_false_displaced_copy", "C15_sepRel_block", "C15_perturb_blocks", "C15_false_blocks",
+        "C15_blockRel_iff", "C15_any_fit_matcher", "C15_firstFit_is_code", "C15_false_displaced_member_blocks", "C15_false_displaced_anywhere",
         "C15_float_false", "C15_float_true", "C15_float_exact", "C15_float_symm", "truncInt_rounding",
         # compiled forms used by the judge executable (@[csimp]): proved equal to the Spec definitions
         "Spec.near_eq_C", "Spec.ringNear_eq_C", "Spec.existsMatching_eq_C"]],
